@@ -10,6 +10,9 @@ import BB.Properties.C14
 import BB.Proofs.G3Awg
 import BB.Proofs.G3Wave
 import BB.Proofs.G3Check
+import BB.Properties.C10
+import BB.Proofs.G9Cells
+import BB.Proofs.G9Ex
 
 namespace BB.C15
 open BB BB.Sequence
@@ -1161,5 +1164,380 @@ def shortNoneSeq : Sequence :=
     amplitudes (`hnum`) and is not affected. -/
 example : (match shortNoneSeq.outputForSEQXFile with | .error e => some e | .ok _ => none) = some Err.type := by
   decide +kernel
+
+end BB.C15
+
+/-! ### capstone: the SEQX package is the forged sequence (`outputForSEQXFile` tied to `Sequence.forge`) -/
+namespace BB.C15
+open BB BB.Sequence
+
+/-- **C15, first clause, end to end (`outputForSEQXFile` vs. `Sequence.forge`)**: let the stored
+    elements list no channel id twice (`ElemsWF`; true of everything the public API builds, see
+    `seqx_identical_to_forge`), let `outputForSEQXFile` return (possibly with deferred range
+    obligations) a package `pkg`, and let `forge(apply_delays=True, apply_filters=True)` return
+    `out`.  Then with `chans = Sequence.channels` there is one waveform column per channel with one
+    entry per forged position, and for every channel index `i` and position index `p`:
+    `out[p]` is position `p + 1`, an element position with the single content entry 1, and
+    `pkg.wfms[i][p]` is exactly (waveform with its filter annotation, marker 1, marker 2) of channel
+    `chans[i]` of that entry — identical to the forged output; the annotation is the filter call
+    declared for that channel (`filterOf`). -/
+theorem seqx_identical_to_forge_wf (s : Sequence) (hwf : Sequence.ElemsWF s) (d : Deferred SEQXPkg) (pkg : SEQXPkg)
+    (h : s.outputForSEQXFile = .ok d) (hp : d.pkg = some pkg)
+    (out : List (ℕ × ForgedPos)) (hF : s.forge true true false = .ok out) :
+    ∃ chans, s.channels = .ok chans ∧ out.length = s.data.length ∧ pkg.wfms.length = chans.length ∧
+      (∀ col ∈ pkg.wfms, col.length = out.length) ∧
+      ∀ i (hi : i < chans.length) p (hpp : p < out.length), ∃ sq cont c w m1 m2,
+        out[p] = (p + 1, { sequencing := sq, isSub := false, content := [(1, cont, none)] }) ∧
+        lookupCh cont chans[i] = .ok c ∧ chWave c = .ok w ∧ chMarker c 1 = .ok m1 ∧ chMarker c 2 = .ok m2 ∧
+        s.filterOf chans[i] = .ok w.filt ∧
+        (pkg.wfms[i]?).bind (·[p]?) = some (w, m1, m2) := by
+  obtain ⟨P, chans, amps, hP, hlen, hch, _, _, _, _, _, hwl, hcol, _, _, _, _, _, hcell, _⟩ :=
+    seqx_content_channels s d pkg h hp
+  obtain ⟨hPF, hagree⟩ := C10.output_path_equals_forge s out P hF hP (fun p e hg => hwf.get p e hg)
+  refine ⟨chans, hch, by omega, hwl, fun col hc => by rw [← hPF]; exact hcol col hc, ?_⟩
+  intro i hi p hpp
+  have hpP : p < P.length := by omega
+  obtain ⟨sq, _, hout⟩ := hagree p hpp hpP
+  obtain ⟨c, w, m1, m2, hc, hw, hm1, hm2, hcl⟩ := hcell i hi p hpP
+  have hfilt : s.filterOf chans[i] = .ok w.filt := by
+    have := Sequence.prepare_filters s P hP p hpP (chans[i], c) (G9.lookup_mem _ _ _ hc)
+    rw [G9.chWave_filt c w hw]; exact this
+  exact ⟨sq, P[p], c, w, m1, m2, hout, hc, hw, hm1, hm2, hfilt, hcl⟩
+
+/-- **C15, first clause, end to end, for every sequence the public API builds**
+    (`Sequence.ApiBuilt`): `wfms[i][p]` of the delivered SEQX package is the (waveform with its
+    filter annotation, marker 1, marker 2) of `forge(True, True)`'s entry at position `p + 1`,
+    content 1, channel `Sequence.channels[i]` — "identical to the forged output" -/
+theorem seqx_identical_to_forge (s : Sequence) (hs : Sequence.ApiBuilt s) (d : Deferred SEQXPkg) (pkg : SEQXPkg)
+    (h : s.outputForSEQXFile = .ok d) (hp : d.pkg = some pkg)
+    (out : List (ℕ × ForgedPos)) (hF : s.forge true true false = .ok out) :
+    ∃ chans, s.channels = .ok chans ∧ out.length = s.data.length ∧ pkg.wfms.length = chans.length ∧
+      (∀ col ∈ pkg.wfms, col.length = out.length) ∧
+      ∀ i (hi : i < chans.length) p (hpp : p < out.length), ∃ sq cont c w m1 m2,
+        out[p] = (p + 1, { sequencing := sq, isSub := false, content := [(1, cont, none)] }) ∧
+        lookupCh cont chans[i] = .ok c ∧ chWave c = .ok w ∧ chMarker c 1 = .ok m1 ∧ chMarker c 2 = .ok m2 ∧
+        s.filterOf chans[i] = .ok w.filt ∧
+        (pkg.wfms[i]?).bind (·[p]?) = some (w, m1, m2) :=
+  seqx_identical_to_forge_wf s hs.elemsWF d pkg h hp out hF
+
+/-- **the flags variant, tied to `forge`**: `outputForSEQXFileWithFlags` delivers the package of
+    `outputForSEQXFile` (so `seqx_identical_to_forge` describes its waveforms) plus, for channel `i`
+    of `Sequence.channels` and position index `p`, the four flags the forged output carries on that
+    channel of position `p + 1` (`[0, 0, 0, 0]` where it carries none) -/
+theorem seqx_flags_identical_to_forge_wf (s : Sequence) (hwf : Sequence.ElemsWF s) (d : Deferred SEQXPkg) (pkg : SEQXPkg)
+    (h : s.outputForSEQXFileWithFlags = .ok d) (hp : d.pkg = some pkg)
+    (out : List (ℕ × ForgedPos)) (hF : s.forge true true false = .ok out) :
+    ∃ chans flags d0 pkg0, s.channels = .ok chans ∧ s.outputForSEQXFile = .ok d0 ∧ d0.pkg = some pkg0 ∧
+      pkg = { pkg0 with flags := some flags } ∧ flags.length = chans.length ∧ (∀ col ∈ flags, col.length = out.length) ∧
+      ∀ i (hi : i < chans.length) p (hpp : p < out.length), ∃ sq cont c,
+        out[p] = (p + 1, { sequencing := sq, isSub := false, content := [(1, cont, none)] }) ∧
+        lookupCh cont chans[i] = .ok c ∧
+        (flags[i]?).bind (·[p]?) = some ((chFlags c).getD [0, 0, 0, 0]) := by
+  obtain ⟨chans, flags, d0, pkg0, hch, hd0, hpkg0, hpk, hfl, hfcol, hfcell⟩ := seqx_flags_end_to_end s d pkg h hp
+  obtain ⟨P, chans', _, hP, hlen, hch', _⟩ := seqx_content_channels s d0 pkg0 hd0 hpkg0
+  rw [hch] at hch'
+  cases hch'
+  obtain ⟨chans'', hch'', _, _, hcells⟩ := G3.prepare_cells s P hP
+  rw [hch] at hch''
+  cases hch''
+  obtain ⟨hPF, hagree⟩ := C10.output_path_equals_forge s out P hF hP (fun p e hg => hwf.get p e hg)
+  refine ⟨chans, flags, d0, pkg0, hch, hd0, hpkg0, hpk, hfl, fun col hc => by rw [hfcol col hc]; omega, ?_⟩
+  intro i hi p hpp
+  have hpP : p < P.length := by omega
+  obtain ⟨sq, _, hout⟩ := hagree p hpp hpP
+  obtain ⟨e, ent, he, hent, hcellf⟩ := hfcell i hi p (by omega)
+  obtain ⟨e', he', hl'⟩ := hcells p hpP
+  rw [he] at he'
+  cases he'
+  obtain ⟨ent', c, hent', hc, hcf, _⟩ := hl' chans[i] (List.getElem_mem hi)
+  rw [hent] at hent'
+  cases hent'
+  exact ⟨sq, P[p], c, hout, hc, by rw [hcellf, hcf]⟩
+
+/-- `seqx_flags_identical_to_forge_wf` for every sequence the public API builds -/
+theorem seqx_flags_identical_to_forge (s : Sequence) (hs : Sequence.ApiBuilt s) (d : Deferred SEQXPkg) (pkg : SEQXPkg)
+    (h : s.outputForSEQXFileWithFlags = .ok d) (hp : d.pkg = some pkg)
+    (out : List (ℕ × ForgedPos)) (hF : s.forge true true false = .ok out) :
+    ∃ chans flags d0 pkg0, s.channels = .ok chans ∧ s.outputForSEQXFile = .ok d0 ∧ d0.pkg = some pkg0 ∧
+      pkg = { pkg0 with flags := some flags } ∧ flags.length = chans.length ∧ (∀ col ∈ flags, col.length = out.length) ∧
+      ∀ i (hi : i < chans.length) p (hpp : p < out.length), ∃ sq cont c,
+        out[p] = (p + 1, { sequencing := sq, isSub := false, content := [(1, cont, none)] }) ∧
+        lookupCh cont chans[i] = .ok c ∧
+        (flags[i]?).bind (·[p]?) = some ((chFlags c).getD [0, 0, 0, 0]) :=
+  seqx_flags_identical_to_forge_wf s hs.elemsWF d pkg h hp out hF
+
+/-- helper (C15 capstones): the stored elements of the raw-array example `G3.Ex.xseq` list no channel id twice -/
+theorem ex_xseq_elemsWF : Sequence.ElemsWF G3.Ex.xseq := by
+  intro x hx e he
+  simp only [G3.Ex.xseq, List.mem_cons, List.not_mem_nil, or_false] at hx
+  rcases hx with rfl | rfl <;> cases he <;> (unfold Dict.WF; decide +kernel)
+
+/-- non-vacuity of `seqx_identical_to_forge_wf` and `seqx_flags_identical_to_forge_wf`: the
+    two-position raw-array example `G3.Ex.xseq` (2400 points, flags on channel "A" of position 1)
+    meets every hypothesis -/
+example : Sequence.ElemsWF G3.Ex.xseq ∧ (∃ d pkg, G3.Ex.xseq.outputForSEQXFile = .ok d ∧ d.pkg = some pkg) ∧
+    (∃ d pkg, G3.Ex.xseq.outputForSEQXFileWithFlags = .ok d ∧ d.pkg = some pkg) ∧
+    (∃ out, G3.Ex.xseq.forge true true false = .ok out) := by
+  refine ⟨ex_xseq_elemsWF, ?_, ?_, G3.isSome_toOption _ (by decide +kernel)⟩
+  · obtain ⟨d, pkg, h1, _, h2⟩ := ex_seqx_ok.1
+    exact ⟨d, pkg, h1, h2⟩
+  · obtain ⟨d, pkg, h1, _, h2⟩ := ex_seqx_ok.2
+    exact ⟨d, pkg, h1, h2⟩
+
+/-- non-vacuity of `seqx_identical_to_forge` and `seqx_flags_identical_to_forge`: the example
+    `G9Ex.seqxSeqF` — built through the public API; two positions of 2400 + 2 points; blueprint
+    channel 1 delayed by two samples; raw channel "A" with a declared high-pass compensation —
+    meets every hypothesis (the package comes with a deferred range obligation for channel "A") -/
+example : Sequence.ApiBuilt G9Ex.seqxSeqF ∧ (∃ d pkg, G9Ex.seqxSeqF.outputForSEQXFile = .ok d ∧ d.pkg = some pkg) ∧
+    (∃ d pkg, G9Ex.seqxSeqF.outputForSEQXFileWithFlags = .ok d ∧ d.pkg = some pkg) ∧
+    (∃ out, G9Ex.seqxSeqF.forge true true false = .ok out) := by
+  refine ⟨G9Ex.seqxSeqF_built, G9Ex.seqxSeqF_seqx_ok, ?_, G9Ex.seqxSeqF_forge_ok⟩
+  obtain ⟨d, pkg, h1, h2⟩ := G9Ex.seqxSeqF_seqx_ok
+  obtain ⟨flags, hfl⟩ := seqxFlags_ok_of_seqx _ d h1
+  exact ⟨_, { pkg with flags := some flags }, hfl, by simp [h2]⟩
+
+/-! ### capstone: whole-sample delays, seen in the SEQX package -/
+
+/-- **C15 first clause + C10, a delayed blueprint channel in the SEQX package**: under the
+    hypotheses of `seqx_identical_to_forge_wf`, let the element `e` at position `p + 1` hold on its
+    `k`-th channel — which is `Sequence.channels[i]` — a blueprint `b` whose undelayed waveform
+    evaluates to `ys`, and let the delay of that channel and the largest delay of the element's
+    channels be the whole sample counts `D` and `M` (each padding absent or at least two samples).
+    Then the delay is the one declared for that channel id, and the waveform of `pkg.wfms[i][p]`
+    carries the channel's declared filter call, has `ys.length + M` points and consists of blocks
+    that evaluate to `D` zeros, `ys`, `M − D` zeros; without a compensation that is the delivered
+    waveform in volts. -/
+theorem seqx_delayed_bp_channel_wf (s : Sequence) (hwf : Sequence.ElemsWF s) (d : Deferred SEQXPkg) (pkg : SEQXPkg)
+    (h : s.outputForSEQXFile = .ok d) (hp : d.pkg = some pkg)
+    (out : List (ℕ × ForgedPos)) (hF : s.forge true true false = .ok out)
+    (chans : List Chan) (hch : s.channels = .ok chans)
+    (i : ℕ) (hi : i < chans.length) (p : ℕ) (hpp : p < s.data.length) (e : Element)
+    (he : Dict.get? s.data ((p + 1 : ℕ) : ℤ) = some (.el e)) (ds : List ℚ) (hds : e.channels.mapM s.delayOf = .ok ds)
+    (sr : ℚ) (hsr : e.getSR = .ok (.num sr)) (hsr0 : 0 < sr)
+    (k : ℕ) (hk : k < e.chans.length) (hkd : k < ds.length) (hki : (e.chans[k]).1 = chans[i])
+    (b : BP) (hb : (e.chans[k]).2.data = .bp b)
+    (f : Forged) (hf : forgeBP b = .ok f) (ys : List ℚ) (hev : Wave.eval? { blocks := f.blocks } = some ys)
+    (D M : ℕ) (hD : ds[k] * sr = D) (hM : maxR ds * sr = M)
+    (hfront : D = 0 ∨ 2 ≤ D) (hback : M - D = 0 ∨ 2 ≤ M - D) :
+    s.delayOf chans[i] = .ok ds[k] ∧ D ≤ M ∧
+    ∃ w m1 m2, (pkg.wfms[i]?).bind (·[p]?) = some (w, m1, m2) ∧ s.filterOf chans[i] = .ok w.filt ∧
+      w.len = ys.length + M ∧
+      Wave.eval? { blocks := w.blocks } = some (List.replicate D 0 ++ ys ++ List.replicate (M - D) 0) ∧
+      (w.filt = none → w.eval? = some (List.replicate D 0 ++ ys ++ List.replicate (M - D) 0)) := by
+  obtain ⟨chans', hch', hlen, _, _, hcell⟩ := seqx_identical_to_forge_wf s hwf d pkg h hp out hF
+  rw [hch] at hch'
+  cases hch'
+  have hpo : p < out.length := by omega
+  obtain ⟨sq, cont, c, w, m1, m2, hout, hc, hw, _, _, hfilt, hcw⟩ := hcell i hi p hpo
+  rw [← hki] at hc
+  obtain ⟨hdel, hle, f', hco, _, hE⟩ := G9.cell_delayed_bp s true false out hF p hpo e he (hwf.get _ e he) ds hds sr hsr hsr0
+    k hk hkd b hb f hf ys hev D M hD hM hfront hback sq cont hout c hc
+  have hwb : w = { blocks := f'.blocks, filt := c.filt } := by
+    simp only [chWave, hco, Except.ok.injEq] at hw
+    exact hw.symm
+  rw [hki] at hdel
+  refine ⟨hdel, hle, w, m1, m2, hcw, hfilt, ?_, by rw [hwb]; exact hE, ?_⟩
+  · have := G3.wave_eval_length { blocks := f'.blocks } _ hE
+    have hl : w.len = Wave.len { blocks := f'.blocks } := by rw [hwb]; rfl
+    rw [hl, ← this]
+    simp only [List.length_append, List.length_replicate]
+    omega
+  · intro hnf
+    have hnf' : c.filt = none := by rw [hwb] at hnf; exact hnf
+    rw [hwb, hnf']; exact hE
+
+/-- `seqx_delayed_bp_channel_wf` for every sequence the public API builds -/
+theorem seqx_delayed_bp_channel (s : Sequence) (hs : Sequence.ApiBuilt s) (d : Deferred SEQXPkg) (pkg : SEQXPkg)
+    (h : s.outputForSEQXFile = .ok d) (hp : d.pkg = some pkg)
+    (out : List (ℕ × ForgedPos)) (hF : s.forge true true false = .ok out)
+    (chans : List Chan) (hch : s.channels = .ok chans)
+    (i : ℕ) (hi : i < chans.length) (p : ℕ) (hpp : p < s.data.length) (e : Element)
+    (he : Dict.get? s.data ((p + 1 : ℕ) : ℤ) = some (.el e)) (ds : List ℚ) (hds : e.channels.mapM s.delayOf = .ok ds)
+    (sr : ℚ) (hsr : e.getSR = .ok (.num sr)) (hsr0 : 0 < sr)
+    (k : ℕ) (hk : k < e.chans.length) (hkd : k < ds.length) (hki : (e.chans[k]).1 = chans[i])
+    (b : BP) (hb : (e.chans[k]).2.data = .bp b)
+    (f : Forged) (hf : forgeBP b = .ok f) (ys : List ℚ) (hev : Wave.eval? { blocks := f.blocks } = some ys)
+    (D M : ℕ) (hD : ds[k] * sr = D) (hM : maxR ds * sr = M)
+    (hfront : D = 0 ∨ 2 ≤ D) (hback : M - D = 0 ∨ 2 ≤ M - D) :
+    s.delayOf chans[i] = .ok ds[k] ∧ D ≤ M ∧
+    ∃ w m1 m2, (pkg.wfms[i]?).bind (·[p]?) = some (w, m1, m2) ∧ s.filterOf chans[i] = .ok w.filt ∧
+      w.len = ys.length + M ∧
+      Wave.eval? { blocks := w.blocks } = some (List.replicate D 0 ++ ys ++ List.replicate (M - D) 0) ∧
+      (w.filt = none → w.eval? = some (List.replicate D 0 ++ ys ++ List.replicate (M - D) 0)) :=
+  seqx_delayed_bp_channel_wf s hs.elemsWF d pkg h hp out hF chans hch i hi p hpp e he ds hds sr hsr hsr0 k hk hkd hki b hb
+    f hf ys hev D M hD hM hfront hback
+
+/-- **... and a delayed raw-array channel in the SEQX package**: `pkg.wfms[i][p]` holds the single
+    raw block `padArr D (M − D) wfm` — the stored 'wfm' array with `D` zeros in front and `M − D`
+    behind — with the channel's declared filter call, and the stored 'm1' / 'm2' arrays padded the
+    same way; without a compensation the padded array is the delivered waveform in volts. -/
+theorem seqx_delayed_raw_channel_wf (s : Sequence) (hwf : Sequence.ElemsWF s) (d : Deferred SEQXPkg) (pkg : SEQXPkg)
+    (h : s.outputForSEQXFile = .ok d) (hp : d.pkg = some pkg)
+    (out : List (ℕ × ForgedPos)) (hF : s.forge true true false = .ok out)
+    (chans : List Chan) (hch : s.channels = .ok chans)
+    (i : ℕ) (hi : i < chans.length) (p : ℕ) (hpp : p < s.data.length) (e : Element)
+    (he : Dict.get? s.data ((p + 1 : ℕ) : ℤ) = some (.el e)) (ds : List ℚ) (hds : e.channels.mapM s.delayOf = .ok ds)
+    (sr : ℚ) (hsr : e.getSR = .ok (.num sr)) (hsr0 : 0 < sr)
+    (k : ℕ) (hk : k < e.chans.length) (hkd : k < ds.length) (hki : (e.chans[k]).1 = chans[i])
+    (arrs : Dict String (List ℚ)) (sv : Val) (ha : (e.chans[k]).2.data = .arr arrs sv)
+    (D M : ℕ) (hD : ds[k] * sr = D) (hM : maxR ds * sr = M) :
+    s.delayOf chans[i] = .ok ds[k] ∧
+    ∃ w wfm r1 r2, Dict.get? arrs "wfm" = some wfm ∧ Dict.get? arrs "m1" = some r1 ∧ Dict.get? arrs "m2" = some r2 ∧
+      (pkg.wfms[i]?).bind (·[p]?) = some (w, Element.padArr D (M - D) r1, Element.padArr D (M - D) r2) ∧
+      s.filterOf chans[i] = .ok w.filt ∧ w.blocks = [.raw (Element.padArr D (M - D) wfm)] ∧
+      (w.filt = none → w.eval? = some (Element.padArr D (M - D) wfm)) := by
+  obtain ⟨chans', hch', hlen, _, _, hcell⟩ := seqx_identical_to_forge_wf s hwf d pkg h hp out hF
+  rw [hch] at hch'
+  cases hch'
+  have hpo : p < out.length := by omega
+  obtain ⟨sq, cont, c, w, m1, m2, hout, hc, hw, hmk1, hmk2, hfilt, hcw⟩ := hcell i hi p hpo
+  rw [← hki] at hc
+  obtain ⟨hdel, a', tm, hco, hget⟩ := G9.cell_delayed_raw s true false out hF p hpo e he (hwf.get _ e he) ds hds sr hsr hsr0
+    k hk hkd arrs sv ha D M hD hM sq cont hout c hc
+  rw [hki] at hdel
+  have key : ∀ name xs, Dict.get? a' name = some xs → ∃ r, Dict.get? arrs name = some r ∧ xs = Element.padArr D (M - D) r := by
+    intro name xs hx
+    rw [hget name] at hx
+    cases hr : Dict.get? arrs name with
+    | none => rw [hr] at hx; cases hx
+    | some r =>
+      rw [hr] at hx
+      simp only [Option.map_some, Option.some.injEq] at hx
+      exact ⟨r, rfl, hx.symm⟩
+  simp only [chWave, hco] at hw
+  simp only [chMarker, hco, if_true] at hmk1
+  simp only [chMarker, hco] at hmk2
+  cases hgw : Dict.get? a' "wfm" with
+  | none => rw [hgw] at hw; cases hw
+  | some xs =>
+    rw [hgw] at hw
+    simp only [Except.ok.injEq] at hw
+    cases hg1 : Dict.get? a' "m1" with
+    | none => rw [hg1] at hmk1; cases hmk1
+    | some x1 =>
+      rw [hg1] at hmk1
+      simp only [Except.ok.injEq] at hmk1
+      have hne : (2 : ℕ) ≠ 1 := by decide
+      simp only [hne, if_false] at hmk2
+      cases hg2 : Dict.get? a' "m2" with
+      | none => rw [hg2] at hmk2; cases hmk2
+      | some x2 =>
+        rw [hg2] at hmk2
+        simp only [Except.ok.injEq] at hmk2
+        obtain ⟨wfm, hwfm, rfl⟩ := key "wfm" xs hgw
+        obtain ⟨r1, hr1, rfl⟩ := key "m1" x1 hg1
+        obtain ⟨r2, hr2, rfl⟩ := key "m2" x2 hg2
+        subst hmk1 hmk2
+        refine ⟨hdel, w, wfm, r1, r2, hwfm, hr1, hr2, hcw, hfilt, by rw [← hw], ?_⟩
+        intro hnf
+        have hnf' : c.filt = none := by rw [← hw] at hnf; exact hnf
+        rw [← hw, hnf']
+        simp [Wave.eval?, Blk.eval?]
+
+/-- `seqx_delayed_raw_channel_wf` for every sequence the public API builds -/
+theorem seqx_delayed_raw_channel (s : Sequence) (hs : Sequence.ApiBuilt s) (d : Deferred SEQXPkg) (pkg : SEQXPkg)
+    (h : s.outputForSEQXFile = .ok d) (hp : d.pkg = some pkg)
+    (out : List (ℕ × ForgedPos)) (hF : s.forge true true false = .ok out)
+    (chans : List Chan) (hch : s.channels = .ok chans)
+    (i : ℕ) (hi : i < chans.length) (p : ℕ) (hpp : p < s.data.length) (e : Element)
+    (he : Dict.get? s.data ((p + 1 : ℕ) : ℤ) = some (.el e)) (ds : List ℚ) (hds : e.channels.mapM s.delayOf = .ok ds)
+    (sr : ℚ) (hsr : e.getSR = .ok (.num sr)) (hsr0 : 0 < sr)
+    (k : ℕ) (hk : k < e.chans.length) (hkd : k < ds.length) (hki : (e.chans[k]).1 = chans[i])
+    (arrs : Dict String (List ℚ)) (sv : Val) (ha : (e.chans[k]).2.data = .arr arrs sv)
+    (D M : ℕ) (hD : ds[k] * sr = D) (hM : maxR ds * sr = M) :
+    s.delayOf chans[i] = .ok ds[k] ∧
+    ∃ w wfm r1 r2, Dict.get? arrs "wfm" = some wfm ∧ Dict.get? arrs "m1" = some r1 ∧ Dict.get? arrs "m2" = some r2 ∧
+      (pkg.wfms[i]?).bind (·[p]?) = some (w, Element.padArr D (M - D) r1, Element.padArr D (M - D) r2) ∧
+      s.filterOf chans[i] = .ok w.filt ∧ w.blocks = [.raw (Element.padArr D (M - D) wfm)] ∧
+      (w.filt = none → w.eval? = some (Element.padArr D (M - D) wfm)) :=
+  seqx_delayed_raw_channel_wf s hs.elemsWF d pkg h hp out hF chans hch i hi p hpp e he ds hds sr hsr hsr0 k hk hkd hki
+    arrs sv ha D M hD hM
+
+/-- non-vacuity of `seqx_delayed_bp_channel` / `seqx_delayed_raw_channel` on `G9Ex.seqxSeqF` (besides
+    `ApiBuilt`, a delivered package and a successful `forge`, shown above): `Sequence.channels` is
+    `[1, "A"]`; position 1 holds the example element; its channel 0 is channel 1 and holds the
+    2400-point blueprint, whose undelayed waveform evaluates (10 ramp samples, 2390 zeros); its
+    channel 1 is channel "A" and holds raw arrays with 'wfm', 'm1', 'm2'; the delays are `[1/5, 0]` s
+    at 10 Sa/s: `D = 2, M = 2` for channel 1 and `D = 0, M = 2` for channel "A" -/
+example : G9Ex.seqxSeqF.channels = .ok [.int 1, .str "A"] ∧
+    Dict.get? G9Ex.seqxSeqF.data ((0 + 1 : ℕ) : ℤ) = some (.el G9Ex.seqxStored) ∧
+    G9Ex.seqxStored.channels.mapM G9Ex.seqxSeqF.delayOf = .ok [1/5, 0] ∧
+    G9Ex.seqxStored.getSR = .ok (.num 10) ∧
+    G9Ex.seqxStored.channels = [.int 1, .str "A"] ∧
+    (G9Ex.seqxStored.chans[0]'(by decide +kernel)).2.data = .bp G9Ex.longBP ∧
+    (G9Ex.seqxStored.chans[1]'(by decide +kernel)).2.data =
+      .arr [("m1", List.replicate 2400 0), ("m2", List.replicate 2400 1), ("wfm", List.replicate 2400 (1/4))] (.num 10) ∧
+    ((forgeBP G9Ex.longBP).toOption.bind (fun f => Wave.eval? { blocks := f.blocks })).map (fun ys => (ys.take 11, ys.length)) =
+      some ([0, 1/10, 2/10, 3/10, 4/10, 5/10, 6/10, 7/10, 8/10, 9/10, 0], 2400) ∧
+    ((1 : ℚ) / 5) * 10 = (2 : ℕ) ∧ maxR [1/5, 0] * 10 = (2 : ℕ) ∧ (0 : ℚ) * 10 = (0 : ℕ) := by
+  refine ⟨G3.toOption_eq_some _ _ (by decide +kernel), G9Ex.seqxSeqF_pos1, by decide +kernel, by decide +kernel,
+    by decide +kernel, by decide +kernel, by decide +kernel, by decide +kernel, by norm_num, by decide +kernel, by norm_num⟩
+
+end BB.C15
+
+namespace BB.C15
+open BB BB.Sequence
+
+/-- `seqx_delayed_bp_channel` and `seqx_delayed_raw_channel` applied to `G9Ex.seqxSeqF`, position 1:
+    channel 1 (delayed by 2 of 2 samples, no compensation) is delivered with 2402 points, two
+    zeros followed by the undelayed 2400 samples; channel "A" (not delayed, high-pass compensation
+    declared) is delivered as the stored 2400 samples followed by two zeros, annotated with its
+    filter call, its markers padded the same way -/
+example : ∃ d pkg w1 m1 m2 wA ys, G9Ex.seqxSeqF.outputForSEQXFile = .ok d ∧ d.pkg = some pkg ∧
+    (pkg.wfms[0]?).bind (·[0]?) = some (w1, m1, m2) ∧ w1.len = 2402 ∧ ys.length = 2400 ∧
+    w1.eval? = some (List.replicate 2 0 ++ ys ++ List.replicate (2 - 2) 0) ∧
+    (pkg.wfms[1]?).bind (·[0]?) = some (wA, Element.padArr 0 (2 - 0) (List.replicate 2400 0),
+      Element.padArr 0 (2 - 0) (List.replicate 2400 1)) ∧
+    wA.blocks = [.raw (Element.padArr 0 (2 - 0) (List.replicate 2400 (1/4)))] ∧
+    wA.filt = some ⟨"HP", 1, 1, .num 10⟩ := by
+  obtain ⟨d, pkg, h, hp⟩ := G9Ex.seqxSeqF_seqx_ok
+  obtain ⟨out, hF⟩ := G9Ex.seqxSeqF_forge_ok
+  have hch : G9Ex.seqxSeqF.channels = .ok [.int 1, .str "A"] := G3.toOption_eq_some _ _ (by decide +kernel)
+  obtain ⟨f, hf⟩ := G3.isSome_toOption (forgeBP G9Ex.longBP) (by decide +kernel)
+  obtain ⟨ys, hev⟩ : ∃ ys, Wave.eval? { blocks := f.blocks } = some ys := by
+    have : ((forgeBP G9Ex.longBP).toOption.bind (fun f => Wave.eval? { blocks := f.blocks })).isSome = true := by
+      decide +kernel
+    rw [hf] at this
+    exact Option.isSome_iff_exists.mp this
+  have hyl : ys.length = 2400 := by
+    have : ((forgeBP G9Ex.longBP).toOption.bind (fun f => Wave.eval? { blocks := f.blocks })).map List.length = some 2400 := by
+      decide +kernel
+    rw [hf] at this
+    simp only [Except.toOption, Option.bind_some, hev, Option.map_some, Option.some.injEq] at this
+    exact this
+  obtain ⟨_, _, w1, m1, m2, hw1, hfl1, hlen1, _, hev1⟩ :=
+    seqx_delayed_bp_channel G9Ex.seqxSeqF G9Ex.seqxSeqF_built d pkg h hp out hF _ hch 0 (by decide) 0 (by decide +kernel)
+      G9Ex.seqxStored G9Ex.seqxSeqF_pos1 [1/5, 0] (by decide +kernel) 10 (by decide +kernel) (by norm_num)
+      0 (by decide +kernel) (by decide) (by decide +kernel) G9Ex.longBP (by decide +kernel) f hf ys hev 2 2
+      (by norm_num) (by decide +kernel) (.inr (le_refl 2)) (.inl rfl)
+  have hnf : w1.filt = none := by
+    have : G9Ex.seqxSeqF.filterOf (.int 1) = .ok none := by decide +kernel
+    have h2 : G9Ex.seqxSeqF.filterOf (.int 1) = .ok w1.filt := hfl1
+    rw [this] at h2; exact (Except.ok.inj h2).symm
+  obtain ⟨_, wA, wfm, r1, r2, hwfm, hr1, hr2, hwA, hflA, hblk, _⟩ :=
+    seqx_delayed_raw_channel G9Ex.seqxSeqF G9Ex.seqxSeqF_built d pkg h hp out hF _ hch 1 (by decide) 0 (by decide +kernel)
+      G9Ex.seqxStored G9Ex.seqxSeqF_pos1 [1/5, 0] (by decide +kernel) 10 (by decide +kernel) (by norm_num)
+      1 (by decide +kernel) (by decide) (by decide +kernel)
+      [("m1", List.replicate 2400 0), ("m2", List.replicate 2400 1), ("wfm", List.replicate 2400 (1/4))] (.num 10)
+      (by decide +kernel) 0 2 (by norm_num) (by decide +kernel)
+  have e0 : wfm = List.replicate 2400 (1/4) := by
+    have : Dict.get? [("m1", List.replicate 2400 (0 : ℚ)), ("m2", List.replicate 2400 1), ("wfm", List.replicate 2400 (1/4))] "wfm" =
+        some (List.replicate 2400 (1/4)) := by decide +kernel
+    rw [this] at hwfm; exact (Option.some.inj hwfm).symm
+  have e1 : r1 = List.replicate 2400 0 := by
+    have : Dict.get? [("m1", List.replicate 2400 (0 : ℚ)), ("m2", List.replicate 2400 1), ("wfm", List.replicate 2400 (1/4))] "m1" =
+        some (List.replicate 2400 0) := by decide +kernel
+    rw [this] at hr1; exact (Option.some.inj hr1).symm
+  have e2 : r2 = List.replicate 2400 1 := by
+    have : Dict.get? [("m1", List.replicate 2400 (0 : ℚ)), ("m2", List.replicate 2400 1), ("wfm", List.replicate 2400 (1/4))] "m2" =
+        some (List.replicate 2400 1) := by decide +kernel
+    rw [this] at hr2; exact (Option.some.inj hr2).symm
+  have hfA : wA.filt = some ⟨"HP", 1, 1, .num 10⟩ := by
+    have : G9Ex.seqxSeqF.filterOf (.str "A") = .ok (some ⟨"HP", 1, 1, .num 10⟩) := by decide +kernel
+    have h2 : G9Ex.seqxSeqF.filterOf (.str "A") = .ok wA.filt := hflA
+    rw [this] at h2; exact (Except.ok.inj h2).symm
+  subst e0 e1 e2
+  refine ⟨d, pkg, w1, m1, m2, wA, ys, h, hp, hw1, ?_, hyl, hev1 hnf, hwA, hblk, hfA⟩
+  rw [hlen1, hyl]
 
 end BB.C15
